@@ -16,7 +16,7 @@ ANCHORS = ["pyoma2.functions.ssi:SSI_multi_setup", "pyoma2.functions.gen:pre_mul
 REQUIRED_MONITORS = ["shared-object history", "truth@PreGER.cov_mm", "truth@PreGER.dat", "truth@SSI_multi_setup", "gain-metamorphic", "split@pre_multisetup(direct)",
                      "split@pre_multisetup(every call made by MultiSetup_PreGER)"]
 ALL_STATES = ["refs listed out of order", "refs differ between setups", "complex shapes", "real shapes", "br=nu+1", "br>nu+1"]
-REQUIRED_STATES = ["refs listed out of order", "refs differ between setups", "br=nu+1", "equal record lengths, different channel counts", "a later setup repeats the first setup's reference records"]
+REQUIRED_STATES = ["refs listed out of order", "refs differ between setups", "br=nu+1", "equal record lengths, different channel counts", "a later setup repeats the first setup's reference records", "two global modes inside each other's default tolerance", "oversampled records, one reference, 3..5 modes"]
 RULE = ("A: random global systems (1..5 modes), 2..4 setups, 1..3 references anywhere/any order, 1..4 roving, gains 10^U(-2,2), own record "
         "length and initial condition per setup, br >= nu_ref+1, both methods, through MultiSetup_PreGER+SSIcov_MS/SSIdat_MS and "
         "ssi.SSI_multi_setup; non-trivial = guards hold and >= 2 setups with different gains; B: EVERY channel count 2..6 and EVERY ordered "
@@ -59,6 +59,22 @@ def build(rng, ctx):
     nset, nref, nrov, ndof, chan_glob, reflist = c02.layout(rng, nset=int(rng.integers(2, 5)), nref=int(rng.integers(1, 4)), max_rov=4, min_rov=1)
     cplx = bool(rng.integers(0, 2))
     fn, xi, Phi, lam = gen.make_system(rng, m, ndof, fs, cplx)
+    if rng.random() < 0.2:
+        # strongly oversampled records (all modes below fs/12), many modes, a single reference: the reference observability matrix is
+        # legal but far from orthogonal - the change of basis between the setups must still be computed accurately
+        m = int(rng.integers(3, 6))
+        nset, nref, nrov, ndof, chan_glob, reflist = c02.layout(rng, nset=int(rng.integers(2, 4)), nref=1, max_rov=4, min_rov=1)
+        fn, xi, Phi, lam = gen.make_system(rng, m, ndof, fs, cplx, (0.005, 0.03), 0.01, 0.08, 0.008)
+        ctx.state("oversampled records, one reference, 3..5 modes")
+    if m >= 2 and rng.random() < 0.25:
+        # two global modes 2..4 % apart (inside each other's default extraction tolerance of 5 %)
+        j = int(rng.integers(0, m - 1))
+        fn = fn.copy()
+        fn[j + 1] = fn[j] * (1 + rng.uniform(0.02, 0.04))
+        fn = np.sort(fn)
+        if np.min(np.diff(fn) / fn[:-1]) > 0.015:
+            lam = 2 * np.pi * fn * (-xi + 1j * np.sqrt(1 - xi**2))
+            ctx.state("two global modes inside each other's default tolerance")
     nu = gen.obs_index(Phi[:nref], lam, fs)
     return m, fs, nset, nref, nrov, ndof, chan_glob, reflist, cplx, fn, xi, Phi, lam, nu
 
@@ -101,6 +117,8 @@ def run_identify(ctx, rng):
     # conditioning guard from the per-setup Hankel matrices
     Ysplit = G_.pre_multisetup([d for d in datasets], [list(r) for r in reflist])
     cond = 0.0
+    condm = {"cov_mm": 0.0, "dat": 0.0}
+    overs = bool(np.max(fn) < fs / 12 and nref == 1 and m >= 3)
     for meth in ("cov_mm", "dat"):
         for y in Ysplit:
             H, _ = ssi.build_hank(np.vstack([y["ref"], y["mov"]]), y["ref"], br, meth)
@@ -109,15 +127,41 @@ def run_identify(ctx, rng):
                 ctx.not_judged("Hankel smaller than 2m")
                 return
             cond = max(cond, s[0] / s[o - 1])
+            condm[meth] = max(condm[meth], s[0] / s[o - 1])
             if s[o] > 0 and s[o - 1] / s[o] < 1e6:
                 ctx.not_judged("sigma_2m/sigma_2m+1 < 1e6")
                 return
-    if cond > 1e7:
-        ctx.not_judged("cond(H) > 1e7")
-        return
-    tol = max(1e-8, 1e4 * np.finfo(float).eps * cond)
+    # the change of basis between the setups goes through the reference observability matrix: its conditioning (from the true system,
+    # columns scaled to unit length) limits the accuracy as well - measured: error <= ~3 eps cond(O_ref) for 'dat'
+    mu_ = np.concatenate([np.exp(lam / fs), np.exp(np.conj(lam) / fs)])
+    C_ = np.hstack([Phi[:nref], np.conj(Phi[:nref])])
+    O_ = np.vstack([C_ * (mu_**k_)[None, :] for k_ in range(br)])
+    sv_ = np.linalg.svd(O_ / np.linalg.norm(O_, axis=0, keepdims=True), compute_uv=False)
+    condO = float(sv_[0] / sv_[-1]) if sv_[-1] > 0 else np.inf
+    eps_ = np.finfo(float).eps
+    skip = set()
+    if overs:
+        # strongly oversampled single-reference records: 'cov_mm' loses accuracy much faster than eps*cond(H) there (measured up to
+        # 1e5 eps cond(H)); it is judged only while cond(H) <= 1e5; 'dat' is judged against the reference-observability bound
+        if condm["cov_mm"] > 1e5:
+            skip.add("cov_mm")
+            ctx.not_judged("oversampled class: cov_mm with cond(H) > 1e5")
+        if condO > 1e9 or condm["dat"] > 1e7:
+            skip.add("dat")
+            ctx.not_judged("oversampled class: cond(O_ref) > 1e9")
+        if len(skip) == 2:
+            return
+        tolm = {mm: max(1e-8, 1e4 * eps_ * condm[mm], 1e3 * eps_ * condO) for mm in condm}
+    else:
+        if cond > 1e7:
+            ctx.not_judged("cond(H) > 1e7")
+            return
+        tolm = {mm: max(1e-8, 1e4 * eps_ * cond, 1e3 * eps_ * min(condO, 1e9)) for mm in condm}
     res = {}
     for meth, cls in (("cov_mm", SSIcov_MS), ("dat", SSIdat_MS)):
+        if meth in skip:
+            continue
+        tol = tolm[meth]
         ms = MultiSetup_PreGER(fs=fs, ref_ind=[list(r) for r in reflist], datasets=[d.copy() for d in datasets])
         alg = cls(name="a", br=br, ordmax=o, method=meth, hc=dict(NEUTRAL))
         ms.add_algorithms(alg)
@@ -127,7 +171,7 @@ def run_identify(ctx, rng):
             continue
         judge(ctx, f"truth@PreGER.{meth}", r.Lambds[:, o], r.Fn_poles[:, o], r.Xi_poles[:, o], r.Phi_poles[:, o, :], fn, xi, PhiG, lam, tol, "ms")
         res[meth] = r
-        ms.mpe("a", sel_freq=[float(f) for f in fn], order=o, rtol=1e-3)
+        ms.mpe("a", sel_freq=[float(f) for f in fn], order=o, rtol=(5e-2 if rng.random() < 0.5 else 1e-3))  # the default tolerance and a tight one
         R = alg.result
         ctx.ev("mpe@PreGER")
         if ctx.check(np.shape(R.Fn) == (m,) and np.shape(R.Phi) == (ndof, m), "ms:mpe_shape", lambda: f"mpe shapes {np.shape(R.Fn)} {np.shape(R.Phi)}"):
@@ -147,10 +191,14 @@ def run_identify(ctx, rng):
     ctx.check([probes.sha(y["ref"]) + probes.sha(y["mov"]) for y in ms.data] == sha0, "ms:shared_data_modified", "a multi-setup SSI run modified the split data shared by the algorithms")
     for a_, meth_ in ((a1, "cov_mm"), (a2, "dat")):
         r_ = a_.result
-        if r_.Phi_poles.shape[2] == ndof:
+        tol = tolm[meth_]
+        if meth_ not in skip and r_.Phi_poles.shape[2] == ndof:
             judge(ctx, f"truth@PreGER.{meth_}", r_.Lambds[:, o], r_.Fn_poles[:, o], r_.Xi_poles[:, o], r_.Phi_poles[:, o, :], fn, xi, PhiG, lam, tol, "ms_shared")
     # function level
     meth = "cov_mm" if rng.random() < 0.5 else "dat"
+    if meth in skip:
+        meth = "dat" if meth == "cov_mm" else "cov_mm"
+    tol = tolm[meth]
     Obs, A, C = ssi.SSI_multi_setup(Ysplit, fs, br, o, meth)
     F, X, P, L, *_ = ssi.SSI_poles(Obs, A, C, o, 1 / fs)
     judge(ctx, "truth@SSI_multi_setup", L[:, o], F[:, o], X[:, o], P[:, o, :], fn, xi, PhiG, lam, tol, "msfn")
@@ -165,7 +213,7 @@ def run_identify(ctx, rng):
         r2, r1 = alg.result, res["cov_mm"]
         ctx.ev("gain-metamorphic")
         d = gen.multiset_dist(r1.Lambds[:, o][np.isfinite(r1.Fn_poles[:, o])], r2.Lambds[:, o][np.isfinite(r2.Fn_poles[:, o])])
-        ctx.check(d <= 10 * tol, "ms:gain_dependence", lambda: f"order-2m eigenvalues change by {d:.2e} when per-setup gains change")
+        ctx.check(d <= 10 * tolm["cov_mm"], "ms:gain_dependence", lambda: f"order-2m eigenvalues change by {d:.2e} when per-setup gains change")
     ctx.state("complex shapes" if cplx else "real shapes")
     ctx.state("br=nu+1" if br == nu + 1 else "br>nu+1")
     if any(list(r) != sorted(r) for r in reflist):
